@@ -34,6 +34,8 @@ TRUSTED = ["model coq/Repro/Doc.v is a hand transcription of the dict interface 
            "harness/props/c05.py: class name, comment text, name text, remaining text per key-value pair); agree also "
            "checks that it satisfies the theorems' hypothesis doc_ok (coq/Repro/DocInv.v) whenever no paragraph repeats "
            "a field name, and that every later model state without repeated names does",
+           "abs_of_tree (coq/Repro/Abs.v) is the Coq counterpart of abstract() in this file; it is compared with it on "
+           "the initial document of every case (agree: parse_agree) through the C01 parser model",
            "field-text recogniser parse_new_field stands in for tokenizer+parser on the lines "
            "set_field_from_raw_string builds; leaves match_field_line / is_ws_line / format_comment are compared "
            "with the live compiled patterns and function",
@@ -43,13 +45,15 @@ TRUSTED = ["model coq/Repro/Doc.v is a hand transcription of the dict interface 
            "let-bound once (harness/props/c05.py emit_history)"]
 ASSUMPTIONS = ["keys are ASCII (str.lower is modelled by ascii_lower); histories with non-ASCII keys are run and "
                "compared but are outside the property's judged domain",
-               "read-back: the theorems C05_set_readback_partial / C05_setter_readback_partial / "
-               "C05_delete_readback_partial are about the edited object (values through the dict interface of the "
-               "model, = the Spec's expected_read for every value deb822 can carry); C05_reread_partial / "
-               "C05_set_reread_partial prove that the text of every paragraph of the dump re-reads (scan_para, compared "
-               "by agree with the implementation's parse and fresh re-parse) to that paragraph's fields; the "
-               "whole-document fresh parse (paragraph splitting) is judged by holds on the implementation's own "
-               "re-parse only (no parse_dump_abs theorem)",
+               "read-back: C05_set_readback / C05_setter_readback / C05_delete_readback / C05_reread are about a FRESH "
+               "PARSE of the dump by the parser model of C01 (coq/Repro/Token.v + Parse.v) abstracted by "
+               "coq/Repro/Abs.v abs_of_tree; they rest on the document-level printer/parser theorem "
+               "C05_parse_dump_abs (abs (parse (dump d)) = d for doc_wf + doc_canon documents, coq/Repro/ParseDumpAbs*.v). "
+               "agree compares that function with the implementation on every run: py_reparse_strict of the case "
+               "text must equal the document read off the implementation's tree (items, classes, comment/name/rest "
+               "texts), doc_canon must hold for it, and after every edit the model's re-parse of the model's dump "
+               "must read like the implementation's fresh parse.  The _partial theorems (live object, domain doc_ok; "
+               "paragraph-level re-read with scan_para) are kept",
                "theorem domain doc_ok: no paragraph repeats a field name (both paragraph classes); edits on paragraphs "
                "with duplicated field names are compared with the model but neither judged by holds nor covered by the "
                "locality theorems (the index invariant of the duplicate-fields class is proved for them)",
